@@ -635,3 +635,163 @@ Proof.
     + subst s. exact (proj2 (ffind_sub r ts s0 p q E) x i Hin).
     + exact (H3 s Hs p q x i Hin).
 Qed.
+
+(* ---- more list facts ---- *)
+
+Lemma nodupb_NoDup l : nodupb l = true -> NoDup l.
+Proof.
+  induction l as [|x l IH]; cbn [nodupb]; intros H; [constructor|].
+  apply andb_true_iff in H. destruct H as [H1 H2]. constructor; [|apply IH; exact H2].
+  apply mem_false_In. destruct (mem x l); [discriminate|reflexivity].
+Qed.
+
+Lemma NoDup_map_snd {V} (m : map V) :
+  NoDup (keys m) -> (forall k k' v, In (k, v) m -> In (k', v) m -> k = k') -> NoDup (List.map snd m).
+Proof.
+  induction m as [|[k v] m IH]; intros Hnd Hinj; [constructor|].
+  unfold keys in Hnd. cbn [List.map fst snd] in *. inversion Hnd as [|a l Hn Hnd']; subst a l. constructor.
+  - intros Hin. apply in_map_iff in Hin. destruct Hin as [[k' v'] [Hv Hin]]. cbn in Hv. subst v'.
+    assert (k = k') by (apply (Hinj k k' v); [left; reflexivity|right; exact Hin]). subst k'.
+    apply Hn. exact (In_keys _ _ _ Hin).
+  - apply IH; [exact Hnd'|]. intros k1 k2 v0 H1 H2. apply (Hinj k1 k2 v0); right; assumption.
+Qed.
+
+Lemma keys_vmap {V W} (f : V -> W) m : keys (vmap f m) = keys m.
+Proof. unfold keys, vmap. rewrite map_map. reflexivity. Qed.
+
+Lemma lookup_fold_upd (l : list (N * pval)) : forall (acc : props) k,
+  lookup k (fold_left (fun (m : props) (kv : N * pval) => upd (fst kv) (snd kv) m) l acc)
+  = match lookup k (rev l) with Some v => Some v | None => lookup k acc end.
+Proof.
+  induction l as [|[k0 v0] l IH]; intros acc k; cbn [fold_left rev]; [reflexivity|].
+  rewrite IH, lookup_app. destruct (lookup k (rev l)); [reflexivity|].
+  cbn [fst snd lookup]. rewrite lookup_upd. destruct (N.eqb k k0); reflexivity.
+Qed.
+
+Lemma lookup_rev {V} (m : map V) k : NoDup (keys m) -> lookup k (rev m) = lookup k m.
+Proof.
+  intros Hnd. assert (Hnd' : NoDup (keys (rev m))) by (unfold keys; rewrite map_rev; apply NoDup_rev; exact Hnd).
+  destruct (lookup k m) as [v|] eqn:E.
+  - apply In_lookup; [exact Hnd'|]. apply -> in_rev. apply lookup_In. exact E.
+  - apply lookup_None_notin. apply lookup_None_notin in E. unfold keys in *. rewrite map_rev, <- in_rev. exact E.
+Qed.
+
+Lemma lookup_pol ps k : NoDup (keys ps) -> lookup k (props_of_list ps) = lookup k ps.
+Proof.
+  intros Hnd. unfold props_of_list. rewrite lookup_fold_upd, (lookup_rev ps k Hnd).
+  destruct (lookup k ps); reflexivity.
+Qed.
+
+Lemma NoDup_keys_pol ps : NoDup (keys (props_of_list ps)).
+Proof.
+  unfold props_of_list. assert (G : forall (l : list (N * pval)) (acc : props), NoDup (keys acc) ->
+    NoDup (keys (fold_left (fun (m : props) (kv : N * pval) => upd (fst kv) (snd kv) m) l acc))).
+  { induction l as [|kv l IH]; intros acc H; cbn [fold_left]; [exact H|]. apply IH. apply NoDup_keys_upd. exact H. }
+  apply G. constructor.
+Qed.
+
+Lemma NoDup_keys_cprops psi phi x ps : NoDup (keys (cprops psi phi x ps)).
+Proof. unfold cprops. destruct (psi (phi x)); [apply NoDup_keys_upd|]; apply NoDup_keys_pol. Qed.
+
+(* ---- entries of enumerated subtrees and of mapped trees ---- *)
+
+Lemma In_bfs_entry p q : forall t', In t' (bfs_all q) ->
+  exists i, In (troot t', i) (flat_map (tflat p) q) /\ sbp (tinst rnone t') i.
+Proof.
+  induction q as [|t q IH] using bfs_queue_ind; intros t' H; [destruct H|].
+  rewrite bfs_all_cons in H. destruct H as [H|H].
+  - subst t'. exists (tinst p t). split; [|apply sbp_tinst]. cbn [flat_map]. apply in_or_app. left. apply tflat_root_In.
+  - destruct (IH t' H) as [i [Hin Hs]]. rewrite flat_map_app in Hin. apply in_app_or in Hin. destruct Hin as [Hin|Hin].
+    + exists i. split; [|exact Hs]. cbn [flat_map]. apply in_or_app. right. exact Hin.
+    + apply In_fflat in Hin. destruct Hin as [k [Hk Hin]].
+      destruct (tflat_reparent p (troot t) k _ _ Hin) as [i2 [Hin2 Hs2]].
+      exists i2. split; [|eapply sbp_trans; eassumption]. cbn [flat_map]. apply in_or_app. left.
+      apply In_tflat. right. exists k. split; assumption.
+Qed.
+
+Lemma entry_tmap phi g t : forall p y i, In (y, i) (tflat p (tmap (cpf phi g) t)) ->
+  exists x i0 p0, In (x, i0) (tflat p0 t) /\ y = phi x /\ i_props i = g x (i_props i0).
+Proof.
+  induction t as [r n c ps kids IH] using tree_ind'. intros p y i H. rewrite Forall_forall in IH.
+  rewrite tmap_cpf, tflat_eq in H. destruct H as [H|H].
+  - inversion H; subst y i. exists r, (mkInst p (List.map troot kids) n c ps), p.
+    split; [rewrite tflat_eq; left; reflexivity|]. split; reflexivity.
+  - apply in_flat_map in H. destruct H as [k' [Hk' Hin]]. apply in_map_iff in Hk'. destruct Hk' as [k [<- Hk]].
+    destruct (IH k Hk _ _ _ Hin) as [x [i0 [p0 [Hin0 [Hy Hp]]]]].
+    destruct (tflat_reparent p0 r k _ _ Hin0) as [i1 [Hin1 Hs1]].
+    exists x, i1, p. split; [|split; [exact Hy|]].
+    + rewrite tflat_eq. right. apply in_flat_map. exists k. split; assumption.
+    + rewrite Hp. destruct Hs1 as [_ [_ [_ E]]]. rewrite E. reflexivity.
+Qed.
+
+Lemma fentry_tmap phi g ts p y i : In (y, i) (flat_map (tflat p) (List.map (tmap (cpf phi g)) ts)) ->
+  exists x i0, In (x, i0) (flat_map (tflat p) ts) /\ y = phi x /\ i_props i = g x (i_props i0).
+Proof.
+  intros H. apply in_flat_map in H. destruct H as [t' [Ht' Hin]]. apply in_map_iff in Ht'. destruct Ht' as [t [<- Ht]].
+  destruct (entry_tmap phi g t _ _ _ Hin) as [x [i0 [p0 [Hin0 [Hy Hp]]]]].
+  destruct (tflat_reparent p0 p t _ _ Hin0) as [i1 [Hin1 Hs1]].
+  exists x, i1. split; [apply In_fflat; exists t; split; assumption|]. split; [exact Hy|].
+  rewrite Hp. destruct Hs1 as [_ [_ [_ E]]]. rewrite E. reflexivity.
+Qed.
+
+Lemma euids_post h E : (forall ps, get_uid (h ps) = get_uid ps) -> euids (List.map (post_entry h) E) = euids E.
+Proof.
+  intros Hh. unfold euids. induction E as [|[y i] E IH]; [reflexivity|]. cbn [List.map flat_map]. rewrite IH. f_equal.
+  unfold iuid, post_entry. cbn [fst snd set_props i_props]. rewrite Hh. reflexivity.
+Qed.
+
+Lemma fuids_tmap_post phi g h ts : (forall ps, get_uid (h ps) = get_uid ps) ->
+  fuids (List.map (tmap (cpf phi (fun x ps => h (g x ps)))) ts) = fuids (List.map (tmap (cpf phi g)) ts).
+Proof.
+  intros Hh. rewrite <- !(euids_fflat rnone), fflat_tmap_post. apply euids_post. exact Hh.
+Qed.
+
+(* ---- the corrected abstract clone: a copy's properties go through [props_of_list] ---- *)
+
+Definition a_clone_p (src dst : adom) (nu nr : N) (rs : list ref) : option (adom * N * N * list ref) :=
+  match find_all rs (a_trees src) with
+  | None => None
+  | Some subs =>
+      if nodupb (frefs subs) then
+        let '(rw, nr') := alloc_refs nr (bfs_all subs) in
+        let destrefs := frefs (a_trees dst) in
+        let copy := tmap (fun x ps =>
+                      (match lookup x rw with Some n => n | None => x end,
+                       List.map (fun kv => (fst kv, clone_val rw destrefs (snd kv))) (props_of_list ps))) in
+        let '(copies, nu') := arrive (fuids (a_trees dst)) nu (List.map copy subs) in
+        Some (mkADom (a_root dst) (a_trees dst ++ copies), nu', nr', List.map troot copies)
+      else None
+  end.
+
+Lemma a_clone_p_inv sa ta nu nr rs ta' nu' nr' roots :
+  a_clone_p sa ta nu nr rs = Some (ta', nu', nr', roots) ->
+  exists subs rw asg,
+    find_all rs (a_trees sa) = Some subs /\ NoDup (frefs subs) /\
+    alloc_refs nr (bfs_all subs) = (rw, nr') /\
+    settle (fuids (a_trees ta)) nu
+      (bfs_all (List.map (tmap (cpf (phi_of rw)
+         (fun x ps => vmap (clone_val rw (frefs (a_trees ta))) (props_of_list ps)))) subs)) = (asg, nu') /\
+    ta' = mkADom (a_root ta) (a_trees ta ++
+            List.map (tmap (cpf (phi_of rw)
+              (fun x ps => vmap (clone_val rw (frefs (a_trees ta)))
+                                (cprops (fun n => lookup n asg) (phi_of rw) x ps)))) subs) /\
+    roots = List.map (phi_of rw) (List.map troot subs).
+Proof.
+  unfold a_clone_p. destruct (find_all rs (a_trees sa)) as [subs|]; [|discriminate].
+  destruct (nodupb (frefs subs)) eqn:End; [|discriminate].
+  destruct (alloc_refs nr (bfs_all subs)) as [rw nr1] eqn:Ea. unfold arrive.
+  match goal with |- context [settle ?u ?n ?l] => destruct (settle u n l) as [asg nu1] eqn:Es end.
+  intros H. inversion H; subst ta' nu1 nr1 roots. clear H.
+  exists subs, rw, asg. split; [reflexivity|]. split; [apply nodupb_NoDup; exact End|]. split; [exact Ea|].
+  split; [exact Es|].
+  assert (E : List.map (apply_uids asg)
+                (List.map (tmap (fun x ps => (match lookup x rw with Some n => n | None => x end,
+                   List.map (fun kv => (fst kv, clone_val rw (frefs (a_trees ta)) (snd kv))) (props_of_list ps)))) subs)
+              = List.map (tmap (cpf (phi_of rw) (fun x ps => vmap (clone_val rw (frefs (a_trees ta)))
+                                (cprops (fun n => lookup n asg) (phi_of rw) x ps)))) subs).
+  { rewrite map_map. apply map_ext. intros t. unfold apply_uids. rewrite tmap_tmap. apply tmap_ext_in.
+    intros x ps _. unfold cpf, cprops. fold (phi_of rw x). f_equal.
+    destruct (lookup (phi_of rw x) asg) as [u|]; [|reflexivity].
+    rewrite <- upd_vmap. reflexivity. }
+  rewrite E. split; [reflexivity|]. rewrite roots_tmap. reflexivity.
+Qed.
